@@ -221,6 +221,16 @@ public:
     void decompose(expression_t, bool inforall = false);
 };
 
+/** The conjunction of the invariant collected so far with one more conjunct: it has rates as soon as one of them has. */
+static expression_t conjunction(const expression_t& invariant, const expression_t& expr)
+{
+    if (invariant.empty())
+        return expr;
+    const bool rates = invariant.get_type().is(INVARIANT_WR) || expr.get_type().is(INVARIANT_WR);
+    return expression_t::create_binary(AND, invariant, expr, expr.get_position(),
+                                       type_t::create_primitive(rates ? INVARIANT_WR : INVARIANT));
+}
+
 void RateDecomposer::decompose(expression_t expr, bool inforall)
 {
     assert(isInvariantWR(expr));
@@ -230,10 +240,7 @@ void RateDecomposer::decompose(expression_t expr, bool inforall)
             hasStrictInvariant = true;  // Strict upper bounds only.
         }
         if (!inforall) {
-            invariant = invariant.empty()
-                            ? expr
-                            : invariant = expression_t::create_binary(AND, invariant, expr, expr.get_position(),
-                                                                      type_t::create_primitive(INVARIANT));
+            invariant = conjunction(invariant, expr);
         }
     } else if (expr.get_kind() == AND) {
         decompose(expr[0], inforall);
@@ -256,21 +263,22 @@ void RateDecomposer::decompose(expression_t expr, bool inforall)
         } else {
             hasClockRates = true;
             if (!inforall) {
-                invariant = invariant.empty() ? expr
-                                              : expression_t::create_binary(AND, invariant, expr, expr.get_position(),
-                                                                            type_t::create_primitive(INVARIANT_WR));
+                invariant = conjunction(invariant, expr);
             }
         }
+    } else if (expr.get_kind() == OR) {
+        // a disjunction of a clock-free operand and an invariant with rates, in either order: look for clock
+        // rates in both operands but don't record them, rather the disjunction
+        decompose(expr[0], true);
+        decompose(expr[1], true);
+        invariant = conjunction(invariant, expr);
     } else {
         assert(expr.get_type().is(INVARIANT_WR));
-        assert(expr.get_kind() == FORALL);
-        // Enter the forall to look for clock rates but don't
+        assert(expr.get_kind() == FORALL || expr.get_kind() == FORALL_DYNAMIC);
+        // Enter the forall (its body is the last operand) to look for clock rates but don't
         // record them, rather the forall expression.
-        decompose(expr[1], true);
-        invariant = invariant.empty()
-                        ? expr
-                        : invariant = expression_t::create_binary(AND, invariant, expr, expr.get_position(),
-                                                                  type_t::create_primitive(INVARIANT_WR));
+        decompose(expr[expr.get_size() - 1], true);
+        invariant = conjunction(invariant, expr);
     }
 }
 
